@@ -498,6 +498,12 @@ pub fn run(sink: &mut Sink, rng: &mut Rng, thorough: bool) {
     if buf.len() % 2880 != 0 {
       sink.impl_failures.push(format!("nuniq-not-2880: depth {} {} len {}", d, fmt_ranges(&l), buf.len()));
     }
+    if l.iter().map(|r| ((r.end - r.start) >> (2 * (29 - d as u32))).min(1 << 20)).sum::<u64>() < 3000 {
+      // the whole file, byte for byte, against the model's NUNIQ file (skipped when the MOC has very many cells)
+      let mut h: u64 = 14695981039346656037;
+      for x in buf.iter() { h = (h ^ (*x as u64)).wrapping_mul(1099511628211); }
+      sink.emit(&format!("fits_nuniq_file 64 {} {}", d, fmt_ranges(&l)), &format!("{}:{}", buf.len(), h), !l.is_empty());
+    }
     let back = guarded(AssertUnwindSafe(|| match read_fits(&buf) {
       Ok((qq, _ww, dd, rs)) => format!("{} ok {}|{}", qq, dd, fmt_ranges(&rs)),
       Err(e) => format!("err {}", e),
